@@ -4,7 +4,7 @@
    harness/lib.py — keep the format  "| <n> (* <name> *) =>". *)
 From Dlms Require Import Base CrcModel CrcSpec FieldsModel FieldsSpec AddrModel AddrSpec WrapperModel WrapperSpec
   TimeModel TimeSpec AxdrModel AxdrSpec AxdrBridge FrameModel FrameSpec HdlcConnModel HdlcScript HdlcLinkSpec
-  ParsersModel AssocModel AssocSpec TransportModel.
+  ParsersModel AssocModel AssocSpec TransportModel ClientModel.
 
 Definition v_bools (l : list bool) : V := VList (map VBool l).
 Definition as_bools (v : V) : list bool := map as_b (as_list v).
@@ -133,6 +133,20 @@ Fixpoint t_script (t : transport) (ops : list V) : list V * transport :=
   match ops with
   | [] => ([], t)
   | o :: r => let '(out, t1) := t_step t o in let '(outs, t2) := t_script t1 r in (out :: outs, t2)
+  end.
+
+Definition as_resp (v : V) : resp :=
+  {| r_kind := as_n (arg 0 v); r_data := as_bytes (arg 1 v); r_block := as_n (arg 2 v); r_iid := as_n (arg 3 v); r_code := as_n (arg 4 v) |}.
+Definition v_resp (r : resp) : V := VList [VN (r_kind r); VBytes (r_data r); VN (r_block r); VN (r_iid r); VN (r_code r)].
+Definition cl_step (c : cl) (o : V) : V * cl :=
+  let code := as_n o in
+  if code =? 0 then let '(r, c') := cl_get c in (v_res VBytes r, c')
+  else if code =? 1 then let '(r, c') := cl_set c in (v_res v_resp r, c')
+  else let '(r, c') := cl_action c in (v_res (v_opt VBytes) r, c').
+Fixpoint cl_script (c : cl) (ops : list V) : list V * cl :=
+  match ops with
+  | [] => ([], c)
+  | o :: r => let '(out, c1) := cl_step c o in let '(outs, c2) := cl_script c1 r in (out :: outs, c2)
   end.
 
 Definition run (op : N) (a : V) : V :=
@@ -274,5 +288,12 @@ Definition run (op : N) (a : V) : V :=
       let '(outs, t) := t_script t0 (as_list (arg 4 a)) in
       VList [VList outs; VList (map VBytes (written (t_ser t))); VList (v_link (c_link (t_conn t)));
              v_nat (length (c_buf (t_conn t))); v_nat (length (t_out t))]
+  (* ---- client GET/SET/ACTION (C19) ---- *)
+  | 150 (* client_script *) =>
+      (* pre; responses; ops *)
+      let c0 := {| cl_state := 2; cl_pre := as_b (arg 0 a); cl_io := map as_resp (as_list (arg 1 a)); cl_buf := []; cl_sent := [] |} in
+      let '(outs, c) := cl_script c0 (as_list (arg 2 a)) in
+      VList [VList outs; VN (cl_state c); VList (map (fun x => let '(k, b, i) := x in VList [VN k; VN b; VN i]) (cl_sent c));
+             v_nat (length (cl_io c))]
   | _ => bad_args
   end.
